@@ -9,6 +9,9 @@ content recipes
   ["cursorspy", base, n, keys, buttons]         flow spy with the cursor protocol (up/down move its cursor)
   ["wrapspy", base, n, sel, keys, buttons]      flow spy, n cells laid out row-major
   ["fixedspy", base, cols, n, sel, keys, buttons]
+  ["falsyspy", base, n, sel, keys, buttons]     rowspy with __len__ == 0 (falsy although it has rows)
+  ["emptypile"] ["emptycolumns"] ["emptygridflow"]  empty containers (falsy; 0 / 1 / 1 rows), ListBox items only
+  ["shared", key, recipe]                       the SAME widget object wherever the key occurs again
   ["pile", [item recipe, ...], focus_index]
   ["listbox", [item recipe, ...], focus_index]  (only with wrap kind "LB")
 wrap = {"kind": "S" | "SB" | "LB", "side", "bw", "thumb", "trough", "ffk", "deco", "walker"}
@@ -94,6 +97,19 @@ class Gen:
         keys, buttons = self.handled() if rng.random() < 0.3 else ([], [])
         return ["cursorspy", self.newbase(), n, [k for k in keys if k not in ("up", "down")], buttons]
 
+    def hostile_items(self, items):
+        """sometimes: the same widget object at several positions; falsy widgets (empty containers, __len__ == 0)"""
+        rng = self.rng
+        if rng.random() < 0.25:
+            inner = rng.choice([self.spy("rowspy", rng.randint(1, 2)), self.text(1), ["text", [""], "space", "left"]])
+            for _ in range(rng.randint(2, 4)):
+                items.insert(rng.randint(0, len(items)), ["shared", "D", inner])
+        if rng.random() < 0.25:
+            for _ in range(rng.randint(1, 3)):
+                sp = self.spy("rowspy", rng.randint(1, 3))
+                falsy = rng.choice([["emptypile"], ["emptycolumns"], ["emptygridflow"], ["falsyspy", *sp[1:]]])
+                items.insert(rng.randint(0, len(items)), falsy)
+
     def flow_item(self, nmax=5):
         rng = self.rng
         r = rng.random()
@@ -160,6 +176,7 @@ class Gen:
                     it = self.spy("rowspy", 1)
                 items.append(it)
                 rows += it[2] if it[0] in ("rowspy", "cursorspy") else 2
+            self.hostile_items(items)
             return ["listbox", items, rng.randrange(len(items)) if items else 0]
         r = rng.random()
         if r < 0.22:
